@@ -330,6 +330,16 @@ func (e *SpecEnv) call(n *SCall) Val {
 		c.old = e.entry.st
 		return c.call(&SCall{Fun: strings.TrimSuffix(n.Fun, "SinceEntry"), Args: n.Args})
 	}
+	if strings.HasSuffix(n.Fun, "SinceAcquire") {
+		// old() is the state right after the latest acquisition of a declared monitor: what the
+		// critical section itself did, whatever other goroutines did before it
+		if x.lastAcq == nil {
+			specFail("%s: no monitor was acquired before this point", n.Fun)
+		}
+		c := *e
+		c.old = x.lastAcq
+		return c.call(&SCall{Fun: strings.TrimSuffix(n.Fun, "SinceAcquire"), Args: n.Args})
+	}
 	if strings.HasSuffix(n.Fun, "SinceHead") {
 		// old() is the head of the innermost loop iteration
 		if e.head == nil {
@@ -432,6 +442,11 @@ func (e *SpecEnv) call(n *SCall) Val {
 			specFail("fresh() needs old state")
 		}
 		return Val{T: "(>= " + v.T + " " + e.old.next + ")", S: "Bool"}
+	case "mine":
+		// allocated by the unit under verification (since its entry): an object no other
+		// goroutine can know unless the unit published it
+		v := e.Eval(n.Args[0])
+		return Val{T: "(>= " + v.T + " " + x.next0 + ")", S: "Bool"}
 	case "allocated":
 		v := e.Eval(n.Args[0])
 		return Val{T: "(and (< 0 " + v.T + ") (< " + v.T + " " + e.st.next + "))", S: "Bool"}
